@@ -231,3 +231,85 @@ SIM_SCENARIO(scen_c16b, "c16b", "C16", 6000000, 30000) {
     delete ai.a;
     W = nullptr;
 }
+
+// c16c — sequences of global_control creation / destruction (any order of destruction, nested and overlapping
+// limits) between phases of parallel work.  The limit changes while every thread is idle (the clause is about work
+// that starts while a limit is in force), each phase then starts work in 1-2 arenas from 1-2 application threads.
+// Oracle: worker threads in user bodies <= L-1 for the active limit L = min over the live controls (mandatory worker
+// allowed when L-1 == 0), and through hook H7 the market works with exactly that limit: soft limit == L-1, resp. P-1
+// when no control is alive; plus the allotment clauses of c16.
+SIM_SCENARIO(scen_c16c, "c16c", "C16", 8000000, 40000) {
+    hx::Desc d;
+    hx::draw_runtime_config(d, 8, /*allow_warm=*/false);
+    World world; W = &world;
+    int narenas = (int)sim::draw_range(1, 2, "narenas");
+    world.ar.resize((size_t)narenas);
+    for (int i = 0; i < narenas; ++i) {
+        ArenaInfo& ai = world.ar[(size_t)i];
+        ai.maxc = (int)sim::draw_range(2, 6, "maxc"); ai.reserved = (int)sim::draw(2, "reserved");
+        ai.a = new tbb::task_arena(ai.maxc, (unsigned)ai.reserved);
+        d.add(hx::fmt("arena%d(max=%d,reserved=%d)", i, ai.maxc, ai.reserved));
+    }
+    int phases = (int)sim::draw_range(2, 5, "phases");
+    struct Ph { int action; int value; int users; int n[2]; int arena[2]; bool enq[2]; };    // action 0 none, 1 create(value), 2 destroy(value = index among live)
+    std::vector<Ph> plan((size_t)phases);
+    int live = 0; std::string ps;
+    for (auto& p : plan) {
+        p.action = live == 0 ? (int)sim::draw(2, "action") : (int)sim::draw(3, "action");
+        if (p.action == 1) { p.value = (int)sim::draw_range(1, 5, "limit"); ++live; ps += hx::fmt(" | create(%d)", p.value); }
+        else if (p.action == 2) { p.value = (int)sim::draw((uint64_t)live, "which"); --live; ps += hx::fmt(" | destroy(#%d)", p.value); }
+        else ps += " | keep";
+        p.users = (int)sim::draw_range(1, 2, "users");
+        for (int u = 0; u < p.users; ++u) { p.n[u] = (int)sim::draw_range(2, 12, "n"); p.arena[u] = (int)sim::draw((uint64_t)narenas, "arena"); p.enq[u] = sim::draw(4, "enqueue") == 0;
+            ps += hx::fmt(" U%d:%s(a%d,n=%d)", u, p.enq[u] ? "enqueue" : "execute-pfor", p.arena[u], p.n[u]); if (p.enq[u]) { world.ar[(size_t)p.arena[u]].enq_used = true; world.any_enqueue = true; } }
+    }
+    static const int ptsv[] = {3, 15, 60};
+    int pts = sim::draw_of(ptsv, "points");
+    d.add(hx::fmt("global_control sequence:%s; points=%d", ps.c_str(), pts));
+    d.publish();
+    int expected_soft = -1;      // -1: a control is being created / destroyed right now (the market is updated inside that call)
+    int allot_updates = 0, soft_checks = 0;
+    sim::set_allotment_observer([&](int soft, int mand, int total, int n, const int* level, const int* minw, const int* maxw, const int* allot) {
+        ++allot_updates;
+        if (expected_soft >= 0) {
+            ++soft_checks;
+            SIM_CHECK(soft == expected_soft, "oracle:worker-limit", "the worker allotment uses soft limit %d, the live global_control objects (min of their values, else the machine size %d) give %d", soft, sim::g_cfg.P, expected_soft);
+        }
+        hx::check_mandatory_allotment(soft, mand, total, n, level, minw, maxw, allot);
+        int limit = (soft == 0 && mand > 0) ? 1 : soft, want = std::min(total, limit), sum = 0;
+        for (int i = 0; i < n; ++i) { sum += allot[i]; SIM_CHECK(allot[i] >= 0 && allot[i] <= maxw[i], "oracle:allotment", "an arena was granted %d workers but requested only %d", allot[i], maxw[i]); }
+        SIM_CHECK(sum <= want, "oracle:allotment", "%d workers granted in total, min(total demand %d, limit %d) is %d", sum, total, limit, want);
+        if (sum != want)
+            sim::fail("oracle:allotment-sum", "workers granted to arenas sum to %d, min(total demand %d, limit %d) is %d (soft limit %d, mandatory requests %d, %d arenas)", sum, total, limit, want, soft, mand, n);
+    });
+    {
+    std::vector<std::pair<int, std::unique_ptr<tbb::global_control>>> gcs;   // (value, control) in creation order
+    std::vector<sim::event*> pend;
+    for (int ph = 0; ph < phases; ++ph) {
+        const Ph& p = plan[(size_t)ph];
+        sim::wait_quiescent();      // every thread of the previous phase is idle (workers asleep or gone)
+        expected_soft = -1;
+        if (p.action == 1) gcs.emplace_back(p.value, std::unique_ptr<tbb::global_control>(new tbb::global_control(tbb::global_control::max_allowed_parallelism, (size_t)p.value)));
+        else if (p.action == 2) gcs.erase(gcs.begin() + p.value);
+        int L = 0; for (auto& g : gcs) L = L ? std::min(L, g.first) : g.first;
+        world.limit = L;                                    // 0: no control alive, the worker-budget clause does not apply
+        expected_soft = (L ? L : std::max(1, sim::g_cfg.P)) - 1;
+        SIM_CHECK((int)tbb::global_control::active_value(tbb::global_control::max_allowed_parallelism) == (L ? L : std::max(1, sim::g_cfg.P)) || L > sim::g_cfg.P, "oracle:worker-limit",
+                  "global_control::active_value == %zu, the live controls give %d", tbb::global_control::active_value(tbb::global_control::max_allowed_parallelism), L ? L : sim::g_cfg.P);
+        std::vector<std::function<void()>> fns;
+        for (int u = 0; u < p.users; ++u) fns.push_back([&, u] {
+            tbb::task_arena& ar = *world.ar[(size_t)p.arena[u]].a; int aid = p.arena[u], n = p.n[u];
+            if (p.enq[u]) { auto* ev = new sim::event; pend.push_back(ev); ar.enqueue([aid, n, pts, ev] { tbb::parallel_for(0, n, [aid, pts](int) { unit(aid, 0, pts); }, tbb::simple_partitioner()); ev->signal(); }); ev->wait(); }
+            else ar.execute([&] { tbb::parallel_for(0, n, [&](int) { unit(aid, 0, pts); }, tbb::simple_partitioner()); });
+        });
+        hx::run_fibers(fns);
+    }
+    sim::wait_quiescent();
+    expected_soft = -1;
+    }
+    sim::set_allotment_observer(nullptr);
+    if (soft_checks) sim::probe("soft-limit-checked");
+    (void)allot_updates;
+    for (auto& ai : world.ar) delete ai.a;
+    W = nullptr;
+}
